@@ -519,6 +519,11 @@ func suiteFaults(o *suiteOut, r *rng, tier string, n int) {
 			ff := ff
 			ws = append(ws, wr{"font-" + formatName(ff), func(w io.Writer) error { return f.Write(w, &type1.WriterOptions{Format: ff}) }})
 		}
+		// the hex writer flushes per line: more fonts in the hex form so that every alignment of the last line occurs
+		for k := 0; k < 6; k++ {
+			g := randFont(newRng(r.next()), true)
+			ws = append(ws, wr{"font-pfa", func(w io.Writer) error { return g.Write(w, &type1.WriterOptions{Format: type1.FormatPFA}) }})
+		}
 		ws = append(ws, wr{"font-pdf", func(w io.Writer) error { _, _, err := f.WritePDF(w); return err }})
 		ws = append(ws, wr{"afm", func(w io.Writer) error { return m.Write(w) }})
 		for _, w := range ws {
